@@ -621,7 +621,8 @@ class Interp:
                         self.frames.pop()
         return [self.opaque_call(name, f, args, kw, st)]
 
-    def opaque_call(self, name, f, args, kw, st):
+    def opaque_call(self, name, f, args, kw, st, params=None):
+        args, kw = _positional(name, args, kw, params)
         self.seq += 1
         seq = self.seq
         pure = name in self.pure
@@ -645,7 +646,7 @@ class Interp:
         if isinstance(f2, property):
             want_inline = False
         if not want_inline or (o2, m) in self.frames:
-            r = self.opaque_call(f"self.{m}", ("method", o2.__name__ if o2 else None, m), args, kw, st)
+            r = self.opaque_call(f"self.{m}", ("method", o2.__name__ if o2 else None, m), args, kw, st, params=_params_of(f2))
             return [r]
         is_static = isinstance(f2, staticmethod)
         if isinstance(f2, (staticmethod, classmethod)):
@@ -708,6 +709,73 @@ _METHOD_EQUIV = _AXIS_FIRST | frozenset(("reshape", "copy", "flatten", "ravel", 
 _PURE_BUILTINS = frozenset(("dict", "list", "tuple", "set", "frozenset", "len", "int", "float", "bool", "str", "isinstance", "callable", "range",
                             "min", "max", "abs", "sum", "sorted", "round"))
 _NEG = {"IsNot": "Is", "NotEq": "Eq", "NotIn": "In"}
+
+
+_SIGS = None
+
+
+def _signatures():
+    """parameter lists of every function / method defined in GemClus, by name (without self / cls)"""
+    global _SIGS
+    if _SIGS is None:
+        import importlib
+        import inspect
+        import pkgutil
+        _SIGS = {}
+        try:
+            import gemclus
+            mods = [gemclus] + [importlib.import_module(m.name) for m in pkgutil.walk_packages(gemclus.__path__, "gemclus.") if ".tests" not in m.name]
+        except Exception:
+            mods = []
+        for mod in mods:
+            for _, obj in list(vars(mod).items()):
+                cands = []
+                if inspect.isfunction(obj) and (obj.__module__ or "").startswith("gemclus"):
+                    cands.append((obj, False))
+                elif inspect.isclass(obj) and (obj.__module__ or "").startswith("gemclus"):
+                    for nm, m_ in vars(obj).items():
+                        fobj = m_.__func__ if isinstance(m_, (staticmethod, classmethod)) else m_
+                        if inspect.isfunction(fobj):
+                            cands.append((fobj, not isinstance(m_, staticmethod)))
+                for fobj, drop in cands:
+                    try:
+                        ps = [p_.name for p_ in inspect.signature(fobj).parameters.values()
+                              if p_.kind in (p_.POSITIONAL_ONLY, p_.POSITIONAL_OR_KEYWORD)]
+                    except (TypeError, ValueError):
+                        continue
+                    _SIGS.setdefault(fobj.__name__, set()).add(tuple(ps[1:] if drop else ps))
+    return _SIGS
+
+
+def _params_of(f2):
+    import inspect
+    drop = not isinstance(f2, staticmethod)
+    fobj = f2.__func__ if isinstance(f2, (staticmethod, classmethod)) else f2
+    try:
+        ps = [p_.name for p_ in inspect.signature(fobj).parameters.values() if p_.kind in (p_.POSITIONAL_ONLY, p_.POSITIONAL_OR_KEYWORD)]
+    except (TypeError, ValueError):
+        return None
+    return tuple(ps[1:] if drop else ps)
+
+
+def _positional(name, args, kw, params=None):
+    """f(a, y=b) and f(a, b) are the same call when y is the second parameter: keywords that continue the positional prefix of a
+    GemClus callee (all definitions of that name agree on the parameter list) are moved to their positions"""
+    if not kw:
+        return args, kw
+    if params is None:
+        sigs = _signatures().get(name.rsplit(".", 1)[-1])
+        if not sigs or len(sigs) != 1:
+            return args, kw
+        params = next(iter(sigs))
+    args, kw = list(args), list(kw)
+    while len(args) < len(params):
+        nxt = params[len(args)]
+        hit = [i for i, (k, _v) in enumerate(kw) if k == nxt]
+        if not hit:
+            break
+        args.append(kw.pop(hit[0])[1])
+    return tuple(args), tuple(kw)
 
 
 def branches(t):
